@@ -26,11 +26,17 @@ for d in sorted(os.listdir(os.path.join(ROOT, "seeded"))):
         mk = re.search(r"direct oracle / replay kinds: C\d\d: (.*?)(?: \| |$|; correspondence)", cb)
         if mk:
             keys = [k.strip() for k in mk.group(1).split(";") if k.strip()]
-            keys = [k for k in keys if not k.startswith("proof obligation")]
+            witness = any(k.startswith("concrete failing table rows") for k in keys)
+            keys = [k for k in keys if not (k.startswith("proof obligation") or k == "no failing input found" or k.startswith("theorem no longer checks") or k.startswith("concrete failing table rows"))]
+            keys = [k[:70] for k in keys]
             if keys:
                 parts.append("; ".join(keys[:3]) + ("; …" if len(keys) > 3 else ""))
-        if not parts or ("no-failing-input-found" in cb and not mk):
+            if witness:
+                parts.append("failing table rows listed by the witness search")
+        if not parts:
             parts.append("correspondence only (`no-failing-input-found`)")
+        elif len(parts) == 1 and parts[0].startswith("theorems") and "no-failing-input-found" in cb:
+            parts.append("`no-failing-input-found`")
         c = "; ".join(parts)
     if "FIRST RUN" in x.get("note", ""):
         c += " **(first run missed — strengthened)**"
